@@ -456,6 +456,28 @@ def recordedIdx (keys : List InstKey) : IdxRec := fun k =>
     (cand.filterMap fun j => j.forks.lookup c).foldr insertIdx []
 
 mutual
+partial def hasMapMode : STree → Bool
+  | .node _ => false
+  | .sub _ m _ _ ch => m || ch.any hasMapMode
+  | .guard _ ch => ch.any hasMapMode
+  | .subR _ m _ _ _ ch => m || ch.any hasMapMode
+end
+
+mutual
+/-- (static map mode, run-time map mode, a map-mode call with something mapped or guarded below) -/
+partial def mapModeKinds : STree → Bool × Bool × Bool
+  | .node _ => (false, false, false)
+  | .sub _ m _ _ ch =>
+    let r := ch.foldl (fun a t => let x := mapModeKinds t; (a.1 || x.1, a.2.1 || x.2.1, a.2.2 || x.2.2)) (false, false, false)
+    (m || r.1, r.2.1, r.2.2 || (m && ch.any fun t => match t with | .node _ => false | _ => true))
+  | .guard _ ch =>
+    ch.foldl (fun a t => let x := mapModeKinds t; (a.1 || x.1, a.2.1 || x.2.1, a.2.2 || x.2.2)) (false, false, false)
+  | .subR _ m _ _ _ ch =>
+    let r := ch.foldl (fun a t => let x := mapModeKinds t; (a.1 || x.1, a.2.1 || x.2.1, a.2.2 || x.2.2)) (false, false, false)
+    (r.1, m || r.2.1, r.2.2 || (m && ch.any fun t => match t with | .node _ => false | _ => true))
+end
+
+mutual
 partial def subNotOk : STree → Bool
   | .node _ => false
   | .sub _ _ _ ok ch => !ok || ch.any subNotOk
@@ -491,7 +513,7 @@ def staticReply (P : Program) (obs : Option Obs) : String :=
     (match obs with
      | some obs => obs.outs.all fun o => J.clean o.2
      | none => true)
-  let (denV, rtV, kindR) :=
+  let (denV, rtV, kindR) : String × String × String :=
     match obs with
     | none => ("na", "na", "")
     | some obs =>
@@ -527,7 +549,18 @@ def staticReply (P : Program) (obs : Option Obs) : String :=
         ((fieldsOf obs.top).filter fun kv => !obs.skip.contains kv.1)
       (if same then "eq" else "neq", match jobDiff.orElse (fun _ => topDiff) with | some d => d | none => "ok",
        if fragR then "R" else if fragR0 then "X" else "")
-  "\t".intercalate ["static", s!"frag={if frag || fragT || fragE || kindR == "R" then 1 else 0}{if frag then "G" else ""}{if fragT then "T" else ""}{if fragE && !fragT then "E" else ""}{kindR}", "den=" ++ denV, "rt=" ++ rtV,
+  -- why a program is outside every proved fragment (histogram only)
+  let why := if frag || fragT || fragE || kindR == "R" then "" else
+    if !callGraphAcyclicB P then "call-graph" else
+    if !acyclicB P.table then "struct-table" else
+    if !wellTypedEB P then
+      (if s.2.any hasMapMode then
+        (let k := s.2.foldl (fun a t => let x := mapModeKinds t; (a.1 || x.1, a.2.1 || x.2.1, a.2.2 || x.2.2)) (false, false, false)
+         s!"typing: a typed-map mode map call (static={k.1} runtime={k.2.1} nested-below={k.2.2})") else "typing: other (struct to untyped map, map literal at untyped map, disabled map call, ...)") else
+    if !decide ((nodes.map fun n => fqid n.path).Nodup) then "node names" else
+    if !treeOkList [] s.2 && !treeOkPList [] s.2 then "tree: typed-map mode / cancelling merge / id repeats" else
+    if kindR == "X" then "index sets" else "oracle not clean / other"
+  "\t".intercalate ["static", s!"frag={if frag || fragT || fragE || kindR == "R" then 1 else 0}{if frag then "G" else ""}{if fragT then "T" else ""}{if fragE && !fragT then "E" else ""}{kindR}|{why}", "den=" ++ denV, "rt=" ++ rtV,
     printStatic info table s.1.exp nodes]
 
 end static
